@@ -12,8 +12,8 @@ from ..flow import EMPTY, BasePolicy, TagFlow, path_of
 from ..model import AnalysisError, FunctionInfo, bind_args, param_default
 from ..roles import roles_of
 from ..symb import Translator, Untranslatable, is_zero
-from ..terms import call_name, canon, cmp_normal, const_num, conjuncts, dotted, guard_of, is_np_call, norm_stmt
-from .common import attr_stores, int_le_form, iter_stores, kw, literal_shape_first_dim, self_attr_of, shape_rank, store_base
+from ..terms import call_name, canon, cmp_normal, const_num, conjuncts, dotted, guard_of, is_np_call, linear, norm_stmt
+from .common import attr_stores, int_le_form, iter_stores, kw, literal_shape_first_dim, reaching_assignments, self_attr_of, shape_rank, store_base
 
 EXPLANATION = (
     "Static rules over FunctionLogger: R1 the row index of a merge/no-record lookup is derived from a rank-1 row mask "
@@ -57,6 +57,84 @@ def per_row_arrays(prog, R) -> Dict[str, dict]:
             cols = canon(sh.elts[1]) if isinstance(sh, (ast.Tuple, ast.List)) and len(sh.elts) > 1 else None
             out[a] = {"rank": shape_rank(v), "cols": cols, "call": v, "stmt": s}
     return out
+
+
+def high_water_attrs(prog, R, arrays) -> Dict[str, list]:
+    """logger attributes that bound a slice of a per-row array outside the logger class
+    (``logger.X[0 : logger.<a> + 1]``, possibly through a local): attr -> [(fn, node)]."""
+    out: Dict[str, list] = {}
+    for fn in prog.functions():
+        if fn.cls is R.logger_cls:
+            continue
+        for n in ast.walk(fn.node):
+            if not (isinstance(n, ast.Subscript) and isinstance(n.slice, ast.Slice) and n.slice.upper is not None):
+                continue
+            if not (isinstance(n.value, ast.Attribute) and n.value.attr in arrays):
+                continue
+            base = canon(n.value.value)
+            for x in ast.walk(n.slice.upper):
+                cands = [x]
+                if isinstance(x, ast.Name):
+                    cands = reaching_assignments(prog, fn, x.id, n)
+                for c in cands:
+                    if isinstance(c, ast.Attribute) and canon(c.value) == base and c.attr not in arrays:
+                        out.setdefault(c.attr, []).append((fn, n))
+    return out
+
+
+def high_water_rule(ctx, prog, R):
+    """The consumers of the log (training-set selector, duplicate filter) see rows ``[0 : hw + 1]``.  ``hw`` must
+    advance with every recorded row and may be bounded only by the *live* capacity of the per-row arrays."""
+    arrays = per_row_arrays(prog, R)
+    hw = high_water_attrs(prog, R, arrays)
+    if not hw:
+        ctx.undecided("no slice of a per-row log array is bounded by a logger attribute")
+        return
+    rec, _ = record_routine(prog, R)
+    for a in sorted(hw):
+        fn0, n0 = hw[a][0]
+        ctx.ok(fn0, n0, f"log rows consumed up to logger.{a} + 1 ({len(hw[a])} slices)")
+        stores = attr_stores(prog, R.logger_cls, a)
+        adv = 0
+        for fn, t, v, st, kind in stores:
+            me = f"self.{a}"
+            if fn.name == "__init__" and const_num(v) is not None:
+                ctx.ok(fn, st, f"{me} starts at {canon(v)}")
+                continue
+            e, cap = v, None
+            if kind == "aug" and isinstance(st.op, ast.Add) and const_num(v) == 1:
+                e = None
+            elif isinstance(v, ast.Call) and call_name(v) in ("np.minimum", "min") and len(v.args) == 2:
+                for x, y in ((v.args[0], v.args[1]), (v.args[1], v.args[0])):
+                    lt, lc = linear(x)
+                    if lt == {me: 1} and lc == 1:
+                        e, cap = None, y
+                        break
+            elif kind == "assign":
+                lt, lc = linear(v)
+                if lt == {me: 1} and lc == 1:
+                    e = None
+                elif canon(v) in ("self.Xn", "(self.Xn - 1)"):
+                    e = None
+            if e is not None:
+                adv += fn is rec
+                ctx.fail(fn, st, f"{me} is set to '{canon(v)[:60]}', not advanced by one: the consumers of the log lose (or gain) rows", construct=f"{me} <- {canon(v)[:60]}")
+                continue
+            if cap is not None:
+                ct, cc = linear(cap)
+                live = [k for k in ct if any(k == f"self.{arr}.shape[0]" or k == f"len(self.{arr})" for arr in arrays)]
+                if not (len(ct) == 1 and live and ct[live[0]] == 1 and cc in (0, -1)):
+                    adv += fn is rec
+                    ctx.fail(fn, st, f"{me} is clamped by '{canon(cap)}', which is not the live capacity of a per-row array (array.shape[0]): after the cache has grown, rows logged later are invisible to the training-set selector and the duplicate filter", construct=f"{me} clamp {canon(cap)[:50]}")
+                    continue
+            if fn is not rec:
+                ctx.fail(fn, st, f"{me} is advanced outside the record routine", construct=f"{me} advanced in {fn.name}")
+                continue
+            adv += 1
+            ctx.ok(fn, st, f"{me} advanced by one per recorded row" + (f", clamped by live capacity {canon(cap)}" if cap is not None else ""))
+        # the advance lies on the new-row path: same innermost branch as the store of the new row
+        if adv == 0:
+            ctx.fail(rec, rec.node, f"the record routine never advances self.{a}", construct=f"self.{a} not advanced")
 
 
 class RankPolicy(BasePolicy):
